@@ -145,6 +145,9 @@ MEMORY = {
     'poke-flag': b'DEF SEG: POKE 1450,C% AND 255',
     'bsave': b'BSAVE "CAS1:X",A%,B%',
     'bload': b'BLOAD "CAS1:X",A%',
+    'bload-segment': b'DEF SEG=B%: BLOAD "CAS1:X",A%',
+    'bload-no-offset': b'DEF SEG=B%: BLOAD "CAS1:X"',
+    'bsave-segment': b'DEF SEG=B%: BSAVE "CAS1:X",A%,C%',
 }
 
 
